@@ -156,7 +156,62 @@ def _job(job):
     return [(sc_name, tag, r.kind, str(r.detail)) for r in res]
 
 
+def _goal_job(idx):
+    """Goal.get_logic: the logic reported for an optimisation goal enables the features of the goal's term - asked
+    again after the goal grew (MaxSMT goals are extended clause by clause)."""
+    shape = Shape(("lit", True, BOOL))
+    x, r = S("x", INT), S("r", REAL)
+    u = S("u", ("BV", 8))
+    a = S("a")
+    from fractions import Fraction as F
+    clauses = {"int": ("LE", x, ("lit", 3, INT)), "real": ("LE", ("lit", F(5), REAL), r), "bv": ("BVULT", u, ("lit", 3, ("BV", 8))), "bool": a}
+    histories = [("int", "bv"), ("int", "real"), ("real", "int"), ("bool", "bv"), ("bv", "int", "real"), ("real", "bool"), ("int", "int")]
+    hist = histories[idx]
+
+    def call(w, it, f0):
+        gm = w.repo.modules["pysmt.optimization.goal"]
+        goal = it.call(it.module_global(gm, "MaxSMTGoal"), [])
+        out = []
+        for k in hist:
+            it.call(it.getattr(goal, "add_soft_clause"), [proc.build_shape(w, clauses[k]), 1])
+            try:
+                lg = ("ret", it.call(it.getattr(goal, "get_logic"), []))
+            except AbsRaise as ex:
+                lg = ("raise", ex.cls_name)
+            out.append((k, lg, it.call(it.getattr(goal, "term"), [])))
+        return out
+
+    def post(w, f, val, facts):
+        for i, (k, (st, lg), term) in enumerate(val):
+            if st == "raise":
+                if lg not in ("NoLogicAvailableError",):
+                    return proc.ProcResult(shape, "raises", lg)
+                continue
+            if not isinstance(lg, AObj):
+                return proc.ProcResult(shape, "invalid", "get_logic returns %r" % (lg,))
+            req, _nl = required(w, term)
+            lfl = flags_of(lg.attrs["theory"])
+            miss = sorted(x_ for x_ in req if lfl.get(x_) is not True)
+            if miss:
+                return proc.ProcResult(shape, "invalid", "after the clauses %s the goal reports the logic %s, its term %s needs %s"
+                                       % (list(hist[:i + 1]), lg.attrs.get("name"), proc.sc.node_str(w, term), miss))
+        return proc.ProcResult(shape, "valid", "%d extensions, logic adequate after each" % len(val))
+    res = proc.run_proc(shape, call, post=post, services="full", max_paths=4, interp_kwargs={"max_steps": 20000000, "max_loop": 200000})
+    return [("MaxSMTGoal.get_logic", " then ".join(hist), r.kind, str(r.detail)) for r in res]
+
+
 def run(ctx):
+    if ctx.want("R7"):
+        rs7 = ctx.rule("R7", "optimisation goals: the logic a goal reports enables the features of its term, also after the goal was extended")
+        for res in parallel_map(_goal_job, list(range(7))):
+            for sc_name, tag, kind, detail in res:
+                if kind == "valid":
+                    rs7.ok({"goal": sc_name, "soft clauses": tag, "result": detail})
+                elif kind == "invalid":
+                    ctx.finding(rs7, "goal-logic|%s" % tag, "%s (%s): %s" % (sc_name, tag, detail), "pysmt/optimization/goal.py")
+                else:
+                    rs7.unrec("%s (%s): %s" % (sc_name, tag, detail[:160]))
+        ctx.floor(rs7, 5)
     if not ctx.want("R6"):
         return
     rs = ctx.rule("R6", "factory shortcuts: every formula is handed to a solver created for a logic that enables its features")
